@@ -208,11 +208,19 @@ func Check[C any](t *testing.T, p Prop[C]) {
 		if err := json.Unmarshal(ff.Case, &c); err != nil {
 			t.Fatalf("replay: cannot decode case: %v", err)
 		}
-		v, o := safeRun(p, c)
-		st.record(c, o)
-		if v != nil {
-			writeFail(p.ID, t.Name(), v, c)
-			t.Fatalf("VERIF-VIOLATION %s: %s", v.Fingerprint, v.Msg)
+		// schedule-dependent units execute the saved case several times (VERIF_REPLAY_REPEAT): the interleaving that
+		// exposed the failure is the scheduler's, not part of the case; an inconclusive execution does not count
+		repeat := 1
+		if n, err := strconv.Atoi(os.Getenv("VERIF_REPLAY_REPEAT")); err == nil && n > 1 {
+			repeat = n
+		}
+		for r := 0; r < repeat; r++ {
+			v, o := safeRun(p, c)
+			st.record(c, o)
+			if v != nil {
+				writeFail(p.ID, t.Name(), v, c)
+				t.Fatalf("VERIF-VIOLATION %s: %s", v.Fingerprint, v.Msg)
+			}
 		}
 		return
 	}
